@@ -117,6 +117,54 @@ func (s *c11Ser) append(float, forceCut, reopen bool, st, t int64, h *histogram.
 }
 
 // ---------------------------------------------------------------------------
+// staleness-marker variants and the staleness-interplay alphabet
+// ---------------------------------------------------------------------------
+
+// c11Marker is a staleness marker (Sum = StaleNaN bit pattern) that is not the bare
+// &Histogram{Sum: StaleNaN} of the core set: it carries the given counter-reset hint (a sender that
+// stamps the hint of its series on every sample, markers included) and - when from != "" - the
+// schema, zero bucket, buckets and count of the specification from (a sender that marks staleness
+// by overwriting Sum only). The statement quantifies over staleness markers, not over bare ones.
+func c11Marker(shapes []histmodel.Shape, name, from string, layout int, hint histogram.CounterResetHint) histmodel.Shape {
+	m := histalpha.Derive(shapes, "e29-stale", 0, false).Model.Copy()
+	if from != "" {
+		m = histalpha.Derive(shapes, from, 0, false).Model.Copy()
+	}
+	m.Sum, m.Stale = math.Float64frombits(0x7ff0000000000002), true
+	m.Hint, m.Gauge = hint, hint == histogram.GaugeType
+	return histmodel.Shape{Name: fmt.Sprintf("%s/L%d", name, layout), Layout: layout, Exact: true, Model: m, Float: m.ToFloat(layout), Int: m.ToInt(layout)}
+}
+
+// c11FullShapes is histalpha.FullShapes plus the gauge-hinted bare staleness marker (the marker of
+// a gauge series: it is the only kind of marker the gauge paths of the appenders accept into a
+// non-empty chunk).
+func c11FullShapes() []histmodel.Shape {
+	full := histalpha.FullShapes()
+	return append(full, c11Marker(full, "g-e29-stale", "", 0, histogram.GaugeType))
+}
+
+// c11StaleShapes is the staleness-interplay alphabet: for each kind of series (counter, gauge,
+// custom-bucket gauge) two shapes that share a chunk when appended one after the other, and every
+// kind of staleness marker that can come between them (bare with each of the four hints; with
+// buckets left in place, unknown and gauge hint). Simplest first.
+func c11StaleShapes() []histmodel.Shape {
+	s := histmodel.Shapes()
+	return []histmodel.Shape{
+		histalpha.Derive(s, "e02-s0-two", 1, false),
+		histalpha.Derive(s, "e03-s0-grown", 0, false),
+		histalpha.Derive(s, "e29-stale", 0, false),
+		histalpha.Derive(s, "e04-s0-grown-front", 0, true),
+		histalpha.Derive(s, "e05-s0-gap", 1, true),
+		c11Marker(s, "g-e29-stale", "", 0, histogram.GaugeType),
+		histalpha.Derive(s, "c08-gauge", 0, false),
+		c11Marker(s, "e29r-stale-hint-reset", "", 0, histogram.CounterReset),
+		c11Marker(s, "e29n-stale-hint-noreset", "", 0, histogram.NotCounterReset),
+		c11Marker(s, "e29b-stale-with-buckets", "e03-s0-grown", 0, histogram.UnknownCounterReset),
+		c11Marker(s, "g-e29b-stale-with-buckets", "e05-s0-gap", 1, histogram.GaugeType),
+	}
+}
+
+// ---------------------------------------------------------------------------
 // reading back (the oracle is histalpha.Compare: histmodel equality at every timestamp)
 // ---------------------------------------------------------------------------
 
@@ -292,6 +340,7 @@ func c11Run(r *vx.Run, alpha string, atoms []c11Atom, seq []int, cfg c11Cfg) str
 	}
 	var objs []passed
 	callerChanged, negChanged := false, false
+	markerJoined, gaugeMarkerJoined := false, false
 	for i, ai := range seq {
 		at := atoms[ai]
 		var h *histogram.Histogram
@@ -325,6 +374,11 @@ func c11Run(r *vx.Run, alpha string, atoms []c11Atom, seq []int, cfg c11Cfg) str
 			return "error"
 		}
 		exp = append(exp, c11Exp{T: c11Ts[i], M: at.M})
+		if at.M.Stale && ser.chunks[len(ser.chunks)-1].NumSamples() >= 2 {
+			// a staleness marker joined a chunk that already holds samples
+			markerJoined = true
+			gaugeMarkerJoined = gaugeMarkerJoined || at.M.Gauge
+		}
 	}
 	// The caller's histograms remain semantically unchanged. (Checked once, after the last append:
 	// every prefix of the sequence is a case of its own under the same configuration.)
@@ -380,6 +434,12 @@ func c11Run(r *vx.Run, alpha string, atoms []c11Atom, seq []int, cfg c11Cfg) str
 	}
 	if negChanged {
 		ev += "n"
+	}
+	if markerJoined {
+		ev += "+S"
+	}
+	if gaugeMarkerJoined {
+		ev += "g"
 	}
 	return ev
 }
@@ -483,9 +543,10 @@ func c11SelfTest(t *testing.T, full []c11Atom) {
 func TestVerifC11a(t *testing.T) {
 	r := vx.Start(t, "C11", "exploration")
 	defer r.Finish()
-	full := histalpha.Atoms(histalpha.FullShapes())
+	full := histalpha.Atoms(c11FullShapes())
 	small := histalpha.Atoms(histalpha.SmallShapes())
-	alphas := map[string][]c11Atom{"full": full, "small": small, "one": histalpha.OnePerShape(histalpha.FullShapes())}
+	stale := histalpha.Atoms(c11StaleShapes())
+	alphas := map[string][]c11Atom{"full": full, "small": small, "stale": stale, "one": histalpha.OnePerShape(c11FullShapes())}
 
 	if r.Replay != "" {
 		var c c11Case
@@ -510,8 +571,9 @@ func TestVerifC11a(t *testing.T) {
 		return
 	}
 	c11SelfTest(t, full)
+	c11SelfTest(t, append(stale[:len(stale):len(stale)], full...))
 
-	var evals, seqs, nRecode, nCut, nBack, nBackNeg, nNontrivial atomic.Int64
+	var evals, seqs, nRecode, nCut, nBack, nBackNeg, nNontrivial, nMarker, nGaugeMarker atomic.Int64
 	var outcomes sync.Map
 	type phase struct {
 		alpha          string
@@ -525,6 +587,9 @@ func TestVerifC11a(t *testing.T) {
 		phases = []phase{
 			// every configuration on everything up to length 2 and on the small alphabet up to length 3
 			{"full", 1, 2, func(n int) []c11Cfg { return c11Cfgs(n, allST, true, both) }},
+			// what may share a chunk with a staleness marker: every kind of marker between two
+			// compatible histograms of every kind of series, all configurations
+			{"stale", 3, 3, func(n int) []c11Cfg { return c11Cfgs(n, allST, true, both) }},
 			{"small", 3, 3, func(n int) []c11Cfg { return c11Cfgs(n, allST, true, both) }},
 			// length 3 over one atom per shape (int when integral, else float), plain and one
 			// start-timestamp configuration (thorough: all 122 atoms under 10 configurations)
@@ -535,7 +600,9 @@ func TestVerifC11a(t *testing.T) {
 	} else {
 		phases = []phase{
 			{"full", 1, 2, func(n int) []c11Cfg { return c11Cfgs(n, allST, true, both) }},
+			{"stale", 3, 3, func(n int) []c11Cfg { return c11Cfgs(n, allST, true, both) }},
 			{"small", 3, 3, func(n int) []c11Cfg { return c11Cfgs(n, allST, true, both) }},
+			{"stale", 4, 4, func(n int) []c11Cfg { return c11Cfgs(n, []int{0, 2}, true, []bool{false}) }},
 			// length 3 over the full alphabet: plain encodings with no cut / a cut before the second
 			// / before the third sample, and one start-timestamp encoding with the appender
 			// re-opened before every append
@@ -582,6 +649,12 @@ func TestVerifC11a(t *testing.T) {
 				if strings.Contains(ev, "Bn") {
 					nBackNeg.Add(1)
 				}
+				if strings.Contains(ev, "+S") {
+					nMarker.Add(1)
+				}
+				if strings.Contains(ev, "+Sg") {
+					nGaugeMarker.Add(1)
+				}
 			}
 			if nontrivial {
 				nNontrivial.Add(1)
@@ -611,11 +684,17 @@ func TestVerifC11a(t *testing.T) {
 	r.Count("cases_with_appender_cut", int(nCut.Load()))
 	r.Count("cases_with_backward_insert_into_caller_histogram", int(nBack.Load()))
 	r.Count("cases_with_backward_insert_on_negative_side", int(nBackNeg.Load()))
+	r.Count("cases_with_marker_joining_a_chunk", int(nMarker.Load()))
+	r.Count("cases_with_gauge_marker_joining_a_chunk", int(nGaugeMarker.Load()))
 	r.Count("sequences_chunkenc", int(seqs.Load()))
 	r.Set("depth_completed_chunkenc", depthDone)
 	r.Set("phases_chunkenc", phaseDesc)
 	r.Set("rule", "part (a): every sequence of atoms (histmodel shape x int|float; full = core shapes + 9 derived gauge, padded, grown and shifted variants, one = the same shapes with one representation each, small = 14 colliding shapes) up to the stated length, each run under every listed configuration (plain or start-timestamp chunk encoding with 3 ST patterns, forced chunk cut before any subset of samples, appender re-opened before every append, repeated atoms re-appending the same object) through AppendHistogram/AppendFloatHistogram with the head's new-chunk/recode/prevApp protocol, read back in 5 passes (fresh iterators and objects kept until the end; one recycled iterator and recycled objects with integer samples read both as int and as float; chunks rebuilt from a copy of their bytes and read as float; Seek to every timestamp; append-only re-encoding of every chunk) and compared with histmodel at every timestamp; the caller's objects are re-decoded after the last append (every prefix is a case of its own). distinct_nontrivial counts the enumerated sequences (distinct by construction: no sequence is enumerated twice) in which an appender recoded the chunk, cut a chunk itself, or inserted empty buckets into the caller's histogram. Parts (b)-(d): see rule_head.")
 	r.Assume("histmodel (decode + semantic equality) is the trusted reference; shapes are valid histograms by construction (Validate() checked in the self-test)")
+	if !r.TooManyViolations() && (nMarker.Load() == 0 || nGaugeMarker.Load() == 0) {
+		// the full alphabet at length 2 (always completed) already contains these cases
+		t.Fatalf("vacuous: staleness marker joined a non-empty chunk in %d cases, a gauge-hinted one in %d", nMarker.Load(), nGaugeMarker.Load())
+	}
 	if !r.Expired() && (r.Get("cases_with_recode") == 0 || r.Get("cases_with_appender_cut") == 0 || r.Get("cases_with_backward_insert_into_caller_histogram") == 0 || r.Get("cases_with_backward_insert_on_negative_side") == 0) {
 		t.Fatalf("vacuous: recode=%d appender cuts=%d backward inserts=%d", r.Get("cases_with_recode"), r.Get("cases_with_appender_cut"), r.Get("cases_with_backward_insert_into_caller_histogram"))
 	}
